@@ -84,6 +84,55 @@ class Ctx:
             json.dump(rec, f, indent=1)
         self.violations.append({"prop": self.prop, "replay": p, "summary": summary})
 
+    # ---- trace validation (code -> spec) ----------------------------------------------
+    def replay_and_validate(self, cases_path, attribute, attribute_event, module="TooDeeTrace", profile="dev", elem="elem", cap=0,
+                            label=None, invariants=("ShapeOK", "HandleOK")):
+        """Replay cases with event logging, then let TLC validate the recorded trace against the trace specification."""
+        label = label or os.path.basename(cases_path)
+        logp = os.path.join(self.outdir, "%s.%s.%s.cap%d.events.ndjson" % (label, profile, elem, cap))
+        if os.path.exists(logp):
+            os.unlink(logp)
+        self.replay(cases_path, attribute, profile=profile, elem=elem, cap=cap, extra_args=("--log", logp), label=label)
+        if not os.path.exists(logp):
+            return
+        t0 = time.time()
+        ok, rejected, states = core.validate_trace(self.outdir, "%s.%s.%s.cap%d" % (label, profile, elem, cap), module, logp,
+                                                   invariants=invariants)
+        nev = core.count_lines(logp)
+        self.events_validated += ok
+        self.traces_validated += 1
+        self.tlc.append({"name": "trace:" + label, "module": module, "states_generated": states, "distinct_states": states,
+                         "depth": 0, "cases_emitted": 0, "wall_s": round(time.time() - t0, 1), "coverage": None,
+                         "trace_events": nev, "trace_events_accepted": ok, "trace_rejections": len(rejected)})
+        if len(self.samples) < 6:
+            with open(logp) as f:
+                for i, line in enumerate(f):
+                    if i == 1:
+                        self.samples.append({"trace_event": json.loads(line)})
+                        break
+        wanted = set(r["case"] for r in rejected if r.get("case") is not None)
+        cases = core.read_cases(cases_path, wanted) if wanted else {}
+        for r in rejected:
+            if r.get("event") is None:
+                if r.get("invariant_violated"):
+                    self.add_violation({"trace": True, "invariant": r["invariant_violated"]}, "trace invariant violated")
+                else:
+                    self.notes.append(r.get("note", "trace validation stopped early"))
+                continue
+            case = cases.get(r["case"])
+            props, sig = attribute_event(case, r["event"])
+            rec = {"case": case, "trace": True, "rejected_event": r["event"], "line": r["line"], "profile": profile, "elem": elem,
+                   "cap": cap, "attributed_to": sorted(props), "signature": sig, "trace_module": module}
+            if self.prop in props:
+                k = core.match_known(self.known, self.prop, sig)
+                if k is not None:
+                    self.known_hits.append((k, rec))
+                else:
+                    self.add_violation(rec, "trace rejected at %s %s: post=%s" % (r["event"].get("ev"), json.dumps(r["event"].get("fault")),
+                                                                                 json.dumps(r["event"].get("post"))[:200]))
+            else:
+                self.other.append({"attributed_to": sorted(props), "signature": sig})
+
     def count_nontrivial(self, cases_path, keyfn):
         """keyfn(case) -> hashable key or None (trivial)."""
         with open(cases_path) as f:
